@@ -206,7 +206,8 @@ Print Assumptions C06_publish_number.
 
 (** ** Rejection, continuity, range of periods-per-hour *)
 
-(** A period duration that is not a multiple of asset.SegmentDurMS is rejected with an error, and
+(** A period duration that is not a multiple of asset.SegmentDurMS is rejected with an error (the
+    typed error errPeriodDuration, which the handler answers with 400 since commit e7eedfb), and
     nothing else is. *)
 Theorem C06_reject : forall pph seg mode cont ast snr st now ases,
   1 <= pph <= 3600 -> 0 < seg ->
